@@ -368,3 +368,45 @@ def qv6(ctx: Ctx):
             ok = kw.get("keep_blank_values") == ("const", True) or (len(e.args) >= 2 and e.args[1] == ("const", True))
             ctx.ob(rule, fi.qual, show(e.value)[:80], ok, "parse_qsl without keep_blank_values=True drops pairs whose value is empty",
                    where(fi, e.node), sample="keep_blank_values=True")
+
+
+def qv7(ctx: Ctx):
+    """What update_query's argument contributes does not depend on the URL it is applied to: the argument is always merged
+    into a copy of the existing pairs (a str through parse_qsl, which decodes it) and the *merged* mapping is what gets
+    serialised. Handing the argument itself to a serialiser (the with_query route, where '%' in a str is literal text) on
+    some path makes `u.update_query("a=%26")` mean different things for URLs with and without a query."""
+    model = ctx.model
+    rule = "QV7"
+    ctx.rule(rule, floor=2, what="update_query serialises the merged copy of the existing pairs, never its argument directly")
+    fi = model.func("_url.URL.update_query")
+    r = analyze(model, fi)
+    ctx.functions.add(fi.qual)
+    api = lambda t: t == ("param", "kwargs") or (t[0] in ("sub", "item") and t[1] == ("param", "args"))
+    n = 0
+    seen = {}
+    for e in r.by_kind("call"):
+        f = e.func
+        if not (f[0] == "global" and f[1] == "_query" and e.args):
+            continue
+        n += 1
+        a = e.args[0]
+        inner = a[1][1] if a[0] == "call" and a[1][0] == "attr" and a[1][2] == "items" and not a[2] else a
+        root = inner
+        while root[0] == "mut":
+            root = root[1]
+        merged = root[0] == "call" and root[1][-1] in ("MultiDict", "CIMultiDict") and root[2] and \
+            any(x[0] == "attr" and x[2] in ("_parsed_query", "query") for x in walk(root[2][0]))
+        direct = api(inner) or (not merged and any(api(x) for x in walk(inner)))
+        seen.setdefault(id(e.node), [e.node, show(e.value)[:70], []])[2].append((merged, direct))
+    if not n:
+        raise AnalysisError("QV7: update_query calls no serialiser of the _query module (anchor vanished)")
+    for node, cons, res in seen.values():
+        ctx.instance(rule)
+        bad = [1 for merged, direct in res if direct]
+        unknown = [1 for merged, direct in res if not merged and not direct]
+        if unknown and not bad:
+            raise AnalysisError(f"QV7: cannot tell what {cons} serialises (neither the merged copy nor the argument): unknown idiom")
+        ctx.ob(rule, fi.qual, cons, not bad,
+               "the argument of update_query is serialised directly on this path instead of being merged into the existing pairs: "
+               "a str argument is then quoted as literal text here and decoded (parse_qsl) on the other paths", where(fi, node),
+               sample="items() of MultiDict(self._parsed_query) after update(...)")
